@@ -165,9 +165,10 @@ pub fn make_plan(c: &Value, seed: u64) -> Plan {
         "add_small_into" | "sub_small_b" => (true, false, true),
         "sub_small_a" => (false, true, true),
         "add_small_assign" | "sub_small_assign" | "sub_small_negate_assign" => (false, false, true),
+        "normalize" | "normalize_add_assign" | "normalize_sub_assign" | "normalize_negate" if is_big => (true, false, false),
         _ => (is_big, is_big, is_big),
     };
-    let uses_r = b.ends_with("_assign") || c.get("uses_r").and_then(|v| v.as_bool()).unwrap_or(false);
+    let uses_r = b.ends_with("_assign") || b == "encode_coeff_i64" || matches!(b, "lsh_add_into" | "lsh_sub" | "rsh_add_into" | "rsh_sub") || c.get("uses_r").and_then(|v| v.as_bool()).unwrap_or(false);
     let da = match c.get("da") {
         Some(v) => col_from_json(v),
         None => rand_col(&mut rng, asz, na, vmax),
@@ -181,6 +182,29 @@ pub fn make_plan(c: &Value, seed: u64) -> Plan {
         None => rand_col(&mut rng, rs, n, vmax),
     };
     let ds = rand_col(&mut rng, 1, n, vmax);
+    // exhaustive digit enumeration (C08): coefficient i of chunk c holds tuple number (c*n + i) mod alpha^size
+    // of the lexicographic enumeration of alpha^size (limb 0 most significant / slowest)
+    let (mut da, mut dr) = (da, dr);
+    if let Some(al) = c.get("alpha").and_then(|v| v.as_array()) {
+        let alpha: Vec<i64> = al.iter().map(|x| x.as_i64().unwrap()).collect();
+        let chunk = gu(c, "chunk", 0) as usize;
+        let inplace = matches!(b, "normalize_assign" | "lsh_assign" | "rsh_assign");
+        let sz = if inplace { rs } else { asz };
+        let total = alpha.len().pow(sz as u32);
+        let mut col: Col = vec![vec![0i64; na]; sz];
+        for i in 0..na {
+            let mut idx = (chunk * na + i) % total;
+            for j in (0..sz).rev() {
+                col[j][i] = alpha[idx % alpha.len()];
+                idx /= alpha.len();
+            }
+        }
+        if inplace {
+            dr = col;
+        } else {
+            da = col;
+        }
+    }
     let nparts = if b == "merge_rings" { n / na } else { 0 };
     let dparts = (0..nparts).map(|_| rand_col(&mut rng, asz, na, vmax)).collect();
     Plan {
@@ -322,6 +346,25 @@ macro_rules! hal_backend {
                     "big_negate_assign" => m.vec_znx_big_negate_assign(&mut res.big_mut::<BE>(), rc),
                     "big_automorphism" => m.vec_znx_big_automorphism(k, &mut res.big_mut::<BE>(), rc, &a.big::<BE>(), ac),
                     "big_automorphism_assign" => m.vec_znx_big_automorphism_assign(k, &mut res.big_mut::<BE>(), rc, scratch),
+                    // ---- normalisation and shifts (C08)
+                    "normalize" => m.vec_znx_normalize(&mut res.vz_mut(), p.rb, k, rc, &a.vz(), p.ab, ac, scratch),
+                    "normalize_assign" => m.vec_znx_normalize_assign(p.rb, &mut res.vz_mut(), rc, scratch),
+                    "lsh" => m.vec_znx_lsh(p.rb, k as usize, &mut res.vz_mut(), rc, &a.vz(), ac, scratch),
+                    "lsh_add_into" => m.vec_znx_lsh_add_into(p.rb, k as usize, &mut res.vz_mut(), rc, &a.vz(), ac, scratch),
+                    "lsh_sub" => m.vec_znx_lsh_sub(p.rb, k as usize, &mut res.vz_mut(), rc, &a.vz(), ac, scratch),
+                    "lsh_assign" => m.vec_znx_lsh_assign(p.rb, k as usize, &mut res.vz_mut(), rc, scratch),
+                    "rsh" => m.vec_znx_rsh(p.rb, k as usize, &mut res.vz_mut(), rc, &a.vz(), ac, scratch),
+                    "rsh_add_into" => m.vec_znx_rsh_add_into(p.rb, k as usize, &mut res.vz_mut(), rc, &a.vz(), ac, scratch),
+                    "rsh_sub" => m.vec_znx_rsh_sub(p.rb, k as usize, &mut res.vz_mut(), rc, &a.vz(), ac, scratch),
+                    "rsh_assign" => m.vec_znx_rsh_assign(p.rb, k as usize, &mut res.vz_mut(), rc, scratch),
+                    "big_normalize" => m.vec_znx_big_normalize(&mut res.vz_mut(), p.rb, k, rc, &a.big::<BE>(), p.ab, ac, scratch),
+                    "big_normalize_add_assign" => {
+                        m.vec_znx_big_normalize_add_assign(&mut res.vz_mut(), p.rb, k, rc, &a.big::<BE>(), p.ab, ac, scratch)
+                    }
+                    "big_normalize_sub_assign" => {
+                        m.vec_znx_big_normalize_sub_assign(&mut res.vz_mut(), p.rb, k, rc, &a.big::<BE>(), p.ab, ac, scratch)
+                    }
+                    "big_normalize_negate" => m.vec_znx_big_normalize_negate(&mut res.vz_mut(), p.rb, k, rc, &a.big::<BE>(), p.ab, ac, scratch),
                     other => panic!("harness: unknown op {other}"),
                 }
             });
@@ -422,5 +465,100 @@ pub fn run_case(mods: &mut Mods, c: &Value, seed: u64) -> Value {
         "outs": outs,
         "frame": frame,
         "frame_bad": frame_bad,
+        "did": gu(c, "did", 0),
+        "chunk": gu(c, "chunk", 0),
+        "nchunks": gu(c, "nchunks", 1),
+        "alpha": c.get("alpha").cloned().unwrap_or(json!([])),
+    })
+}
+
+// ------------------------------------------------------------------------------------------------
+// Integer encoding / decoding of limb vectors (C08, second half).  Backend independent; executed
+// from two garbage pre-fills so that "other columns and coefficients untouched" and "every limb of
+// the column defined" are part of the frame check.
+pub fn run_encode_case(c: &Value, seed: u64) -> Value {
+    use dashu_float::{FBig, round::mode::HalfEven};
+    let p = make_plan(c, seed);
+    let b = p.rb;
+    let k = p.k as usize;
+    let x: Vec<i64> = p.da[0].clone();
+    let idx = p.limb; // coefficient index for the single-coefficient forms
+    let mut groups: Vec<(Vec<Value>, Value, String)> = Vec::new();
+    let mut frame = true;
+    for fill in 0..2u64 {
+        let f = (fill + 1).wrapping_mul(0x51ED27).wrapping_add(17);
+        let mut res = Opd::new(p.n, p.rcols, p.rs, p.rextra, p.rcol, 8, f ^ 1);
+        let coeff_form = p.op == "encode_coeff_i64";
+        if coeff_form {
+            res.write(&p.dr);
+        }
+        let snap = res.buf.snapshot();
+        let r = guarded(|| {
+            let mut v = res.vz_mut();
+            match p.op.as_str() {
+                "encode_vec_i64" => v.encode_vec_i64(b, p.rcol, k, &x),
+                "encode_vec_i128" => {
+                    let xx: Vec<i128> = x.iter().map(|&t| t as i128).collect();
+                    v.encode_vec_i128(b, p.rcol, k, &xx)
+                }
+                "encode_coeff_i64" => v.encode_coeff_i64(b, p.rcol, k, idx, x[0]),
+                other => panic!("harness: unknown encode op {other}"),
+            }
+        });
+        let mut panic = r.err().unwrap_or_default();
+        frame &= res.buf.unchanged_except(&snap, &res.col_ranges());
+        let d = res.read();
+        let dj: Vec<Vec<i64>> = d.iter().map(|l| l.iter().map(|&t| t as i64).collect()).collect();
+        // decode through every public decoder
+        let dec = guarded(|| {
+            let v = res.vz();
+            let mut v64 = vec![0i64; p.n];
+            v.decode_vec_i64(b, p.rcol, k, &mut v64);
+            let mut v128 = vec![0i128; p.n];
+            v.decode_vec_i128(b, p.rcol, k, &mut v128);
+            let c64: Vec<i64> = (0..p.n).map(|i| v.decode_coeff_i64(b, p.rcol, k, i)).collect();
+            let mut fl: Vec<FBig<HalfEven>> = vec![FBig::<HalfEven>::ZERO; p.n];
+            v.decode_vec_float(b, p.rcol, &mut fl);
+            // exact numerator over 2^(size*b): value * 2^(size*b) must be an integer
+            let sh = (p.rs * b) as isize;
+            let flt: Vec<String> = fl
+                .iter()
+                .map(|y| {
+                    let scaled = y.clone() << sh;
+                    let (i, fr) = (scaled.clone().trunc(), scaled.fract());
+                    if fr != FBig::<HalfEven>::ZERO { "frac".to_string() } else { format!("{}", i.to_int().value()) }
+                })
+                .collect();
+            (v64, v128.iter().map(|&t| t as i64).collect::<Vec<i64>>(), c64, flt)
+        });
+        let decj = match dec {
+            Ok((v64, v128, c64, flt)) => {
+                let fl: Vec<Value> = flt.iter().map(|s| s.parse::<i64>().map(|v| json!(v)).unwrap_or(json!(s))).collect();
+                json!({"v64": v64, "v128": v128, "c64": c64, "flt": fl})
+            }
+            Err(e) => {
+                if panic.is_empty() {
+                    panic = format!("decode: {e}");
+                }
+                json!({"v64": [], "v128": [], "c64": [], "flt": []})
+            }
+        };
+        let who = json!({"b": 0, "f": fill});
+        let val = json!({"d": dj, "dec": decj});
+        if let Some(g) = groups.iter_mut().find(|g| g.1 == val && g.2 == panic) {
+            g.0.push(who);
+        } else {
+            groups.push((vec![who], val, panic));
+        }
+    }
+    let outs: Vec<Value> = groups.into_iter().map(|(who, val, panic)| json!({"who": who, "d": val["d"], "dec": val["dec"], "panic": panic})).collect();
+    json!({
+        "id": gu(c, "id", 0), "op": p.op, "n": p.n, "na": p.na, "rs": p.rs,
+        "p": {"k": p.k, "limb": p.limb, "part": 0, "rb": p.rb, "ab": p.ab},
+        "shape": {"rcols": p.rcols, "rcol": p.rcol, "acols": 1, "acol": 0, "bcols": 1, "bcol": 0, "rextra": p.rextra},
+        "ins": {"a": json!(p.da), "b": json!([]), "r": if p.op == "encode_coeff_i64" { json!(p.dr) } else { json!([]) }, "s": json!([]), "parts": json!([])},
+        "outs": outs, "frame": frame, "frame_bad": if frame { json!([]) } else { json!(["encode"]) },
+        "did": gu(c, "did", 0), "chunk": gu(c, "chunk", 0), "nchunks": gu(c, "nchunks", 1),
+        "alpha": c.get("alpha").cloned().unwrap_or(json!([])),
     })
 }
